@@ -140,6 +140,11 @@ type CronJob struct {
 
 	// Err holds the error returned by the last invocation of Fn.
 	Err error
+
+	// cancelled is set (under the Cron's lock) when the job is
+	// removed or replaced while its Fn is running: it is then in
+	// nobody's timeline, and it must not get back into one.
+	cancelled bool
 }
 
 // Timeline is the time-order list of pending CronJobs.
@@ -185,6 +190,10 @@ type Cron struct {
 
 	// The approximate maximum number pending jobs.
 	Limit int
+
+	// inFlight has the jobs whose Fn is running (by id).  Those
+	// are not in the Timeline; 'rem' looks here, too.
+	inFlight map[string]*CronJob
 }
 
 // NewCron creates a new Cron instanced.
@@ -204,7 +213,8 @@ func NewCron(broadcaster *CronBroadcaster, pause time.Duration, name string, lim
 		time.Now(),
 		pause,
 		name,
-		limit}
+		limit,
+		make(map[string]*CronJob)}
 
 	return c, nil
 }
@@ -352,6 +362,10 @@ LOOP:
 				if ready {
 					// Danger.  ToDo: Be more careful
 					c.Timeline = c.Timeline[1:]
+					if c.inFlight == nil {
+						c.inFlight = make(map[string]*CronJob)
+					}
+					c.inFlight[job.Id] = job
 					go func(job *CronJob) {
 						c.run(ctx, job)
 					}(job)
@@ -388,10 +402,22 @@ func (c *Cron) run(ctx *core.Context, job *CronJob) {
 		job.Err = err
 	}
 	if once {
+		c.Lock()
+		c.landed(job)
+		c.Unlock()
 	} else {
 		// ToDo: Consider an error here.
 		c.schedule(ctx, job, false)
 	}
+}
+
+// landed is called (with the lock) when a job's Fn has returned.  It
+// reports whether the job was removed or replaced in the meantime.
+func (c *Cron) landed(job *CronJob) bool {
+	if c.inFlight[job.Id] == job {
+		delete(c.inFlight, job.Id)
+	}
+	return job.cancelled
 }
 
 func (c *Cron) stopTimer() {
@@ -453,12 +479,28 @@ func (c *Cron) schedule(ctx *core.Context, job *CronJob, checkLimit bool) error 
 			// due immediately, again and again.
 			err := fmt.Errorf("Cron %p %s job %s has no future occurrence", c, c.Name, job.Id)
 			core.Log(core.WARN|CRON, ctx, "Cron.schedule", "error", err, "name", c.Name)
+			if !checkLimit {
+				c.Lock()
+				c.landed(job)
+				c.Unlock()
+			}
 			return err
 		}
 		job.Next = next
 	}
 
 	c.Lock()
+
+	if !checkLimit {
+		// We are putting a job back after it ran.  If it was
+		// removed (or replaced) while it ran, it stays out:
+		// 'Rem' could not find it in the timeline then, and it
+		// would tick for ever (or evict its replacement).
+		if c.landed(job) {
+			c.Unlock()
+			return nil
+		}
+	}
 
 	//remove existing job with the same id
 	if _, err := c.rem(ctx, job.Id); nil != err {
@@ -584,6 +626,13 @@ func (c *Cron) rem(ctx *core.Context, id string) (bool, error) {
 			found = true
 			break
 		}
+	}
+	if job, flying := c.inFlight[id]; flying {
+		// Its Fn is running right now.  It is not in the
+		// timeline, and it will not get back there.
+		job.cancelled = true
+		delete(c.inFlight, id)
+		found = true
 	}
 	if !found {
 		// log.Printf("Cron.Rem %p %s job %s not found", c, c.Name, id)
